@@ -580,3 +580,74 @@ Fixpoint ok_cells (fs : list fld) (n : node) (cs : list cell) : bool :=
 Definition ok_stdout (ks : list key) (fs : list fld) (tbl : list node) (out : list line) : bool :=
   forallb (fun l => match find_node tbl (fst l) with Some n => ok_cells (select_fields fs) n (snd l) | None => false end) out
   && ok_sorted ks tbl (map fst out).
+
+(* ------------------------------------------------------------------ stdout of `uftrace report --diff` *)
+(* default options: sort key "total" on the difference column, policy abs/compact; rows are inserted into
+   the diff tree (insert_diff: left of [iter] iff cmp_diff(iter, node) < 0) base rows first, in name order *)
+Definition absdiff (bp : node * node) : N := snd (sdiff (sum (n_total (fst bp))) (sum (n_total (snd bp)))).
+Fixpoint insert_diff (x : node * node) (l : list (node * node)) : list (node * node) :=
+  match l with
+  | [] => [x]
+  | y :: t => if absdiff y <? absdiff x then x :: y :: t else y :: insert_diff x t
+  end.
+Definition diff_report (base pair : list node) : list (node * node) :=
+  fold_left (fun acc x => insert_diff x acc) (diff_pairs base pair) [].
+(* a difference cell: None = "0 us" / "+0"; Some (a minus sign is printed, ddd, fff, unit).
+   __print_time_unit without colours: signs[] = { "+", "-" } indexed by (delta_nsec > 0), i.e. an INCREASE
+   is printed with "-" (with colours the index is recomputed and the sign is right) - modelled as it is *)
+Definition dcell := option (bool * N * N * N).
+Definition show_dtime (b p : N) : dcell :=
+  let '(neg, m) := sdiff b p in
+  match fmt_time m with None => None | Some (d, f, u) => Some (negb neg, d, f, u) end.
+Definition show_dcount (b p : N) : dcell :=
+  let '(neg, m) := sdiff b p in if m =? 0 then None else Some (neg, m, 0, 99).
+Definition dline := (N * list dcell)%type.
+Definition diff_stdout (base pair : list node) : list dline :=
+  map (fun bp => let '(b, p) := bp in
+                 (n_name b, [show_dtime (sum (n_total b)) (sum (n_total p));
+                             show_dtime (sum (n_self b)) (sum (n_self p));
+                             show_dcount (n_call b) (n_call p)]))
+      (diff_report base pair).
+Definition dcell_eqb (a b : dcell) : bool :=
+  match a, b with
+  | None, None => true
+  | Some (s1, a1, a2, a3), Some (s2, b1, b2, b3) => Bool.eqb s1 s2 && (a1 =? b1) && (a2 =? b2) && (a3 =? b3)
+  | _, _ => false
+  end.
+Fixpoint dcells_eqb (a b : list dcell) : bool :=
+  match a, b with
+  | [], [] => true
+  | x :: a', y :: b' => dcell_eqb x y && dcells_eqb a' b'
+  | _, _ => false
+  end.
+Fixpoint dlines_eqb (a b : list dline) : bool :=
+  match a, b with
+  | [], [] => true
+  | (n1, c1) :: a', (n2, c2) :: b' => (n1 =? n2) && dcells_eqb c1 c2 && dlines_eqb a' b'
+  | _, _ => false
+  end.
+(* checker: a printed difference denotes pair - base of the two raw tables *)
+Definition ok_dtime (b p : N) (c : dcell) : bool :=
+  match c with
+  | None => b =? p
+  | Some (_, d, f, u) => negb (b =? p) && ok_cell (if p <? b then b - p else p - b) (Some (d, f, u))
+  end.       (* the sign of a time difference is not judged: it is inverted without colours (reported) *)
+Definition ok_dcount (b p : N) (c : dcell) : bool :=
+  match c with
+  | None => b =? p
+  | Some (neg, m, 0, 99) => negb (b =? p) && Bool.eqb neg (p <? b) && (m =? (if p <? b then b - p else p - b))
+  | _ => false
+  end.
+Definition ok_dline (base pair : list node) (l : dline) : bool :=
+  let b := match find_node base (fst l) with Some n => n | None => zero_node (fst l) end in
+  let p := match find_node pair (fst l) with Some n => n | None => zero_node (fst l) end in
+  match snd l with
+  | [c1; c2; c3] => ok_dtime (sum (n_total b)) (sum (n_total p)) c1
+                    && ok_dtime (sum (n_self b)) (sum (n_self p)) c2
+                    && ok_dcount (n_call b) (n_call p) c3
+  | _ => false
+  end.
+Definition ok_diff_stdout (base pair : list node) (out : list dline) : bool :=
+  forallb (ok_dline base pair) out
+  && list_eqb (sort_names (map fst out))
+              (sort_names (map n_name base ++ map n_name (filter (fun p => match find_node base (n_name p) with Some _ => false | None => true end) pair))).
